@@ -176,6 +176,7 @@ def gen_constraints(rng, oname, allow_lax=False, arg_elem=None):
     return tuple(cons), lax
 
 
+ENABLE_BARE_CONTAINERS = True  # C13 switches this off: untyped elements are arbitrary Python objects, not JSON instances
 ENABLE_CONTAINS = False  # switched on by C01 only (other checks keep their constraint vocabulary)
 CONTAINS_POOL = {
     "int": [(("ge", 3),), (("const", 1),), (("multiple_of", 5),), (("lt", 0),), (("enum", (1, 2, 10)),)],
@@ -236,7 +237,7 @@ def gen_spec(rng, depth=2, allow_lax=False, abstract=False, logic=True, hashable
         if ENABLE_CONTAINS and rng.random() < 0.4:
             return gen_contains(rng, o)
         cons, lax = gen_constraints(rng, o, allow_lax)
-        if cons and rng.random() < 0.2:
+        if ENABLE_BARE_CONTAINERS and cons and rng.random() < 0.2:
             # a bare (untyped) constrained container: the converter's same-type shortcut hands the caller's own object on
             return ("con", o, cons, lax, ())
         elem = gen_spec(rng, 0, allow_lax, hashable=True)
